@@ -43,7 +43,7 @@ RULE = ("case = one generated source schedule (+ parameters, + tie seed); distin
         "followed by passthrough items")
 REQUIRED_REACH = ["merge_cases", "merge_source_error_cases", "merge_multi_done_sets", "merge_order_checked",
                   "debounce_cases", "debounce_tie_at_debounce_edge", "debounce_tie_at_max_window_edge", "debounce_max_window_shorter_than_quiet_period",
-                  "debounce_burst_and_passthrough", "sentinel_valued_item_cases", "wait_probe_calls"]
+                  "debounce_burst_and_passthrough", "sentinel_valued_item_cases", "wait_probe_calls", "merge_source_error_is_a_cancellation"]
 ASSUMPTIONS = ["virtual-time asyncio loop (vf/vclock.py); consumer pulls the next item immediately",
                "burst membership is only constrained to the interval allowed by every reading of the docstring "
                "(window from first pull vs from first item; edge ties either way)"]
@@ -84,7 +84,7 @@ def gen_merge(rnd, deep):
             err = _gap(rnd, pool)
         sources.append({"items": items, "err": err})
     return {"kind": "merge", "sources": sources, "stop_first": rnd.random() < 0.15,
-            "consumer_lat": rnd.choice([0, 0, 0, "y", 0.5, 1]), "tie_seed": rnd.randint(0, 10**6)}
+            "consumer_lat": rnd.choice([0, 0, 0, "y", 0.5, 1]), "tie_seed": rnd.randint(0, 10**6), "err_cancel": rnd.random() < 0.25}
 
 
 def gen_debounce(rnd, deep):
@@ -227,6 +227,23 @@ class SrcErr(Exception):
     pass
 
 
+def _src_cancelled():
+    """an input's error that derives from asyncio.CancelledError (an input awaiting something another party cancelled, a transport's
+    'peer aborted' error): it is the input's error like any other; the consumer task itself is never cancelled here"""
+    import asyncio
+
+    global _SrcCancelled
+    if _SrcCancelled is None:
+        class SrcCancelled(asyncio.CancelledError):
+            pass
+
+        _SrcCancelled = SrcCancelled
+    return _SrcCancelled
+
+
+_SrcCancelled = None
+
+
 # ------------------------------------------------------------------ merge
 def run_merge(case, acc: Acc):
     import llama_agents.core.iter_utils as iu
@@ -250,7 +267,7 @@ def run_merge(case, acc: Acc):
             yield tuple(item)
         if srcs[i]["err"] is not None:
             await _do_gap(srcs[i]["err"])
-            errs[i] = SrcErr(i)
+            errs[i] = _src_cancelled()(i) if case.get("err_cancel") else SrcErr(i)
             raise errs[i]
 
     async def main():
@@ -260,7 +277,7 @@ def run_merge(case, acc: Acc):
                 out.append([x, vclock.vnow()])
                 await _do_gap(case["consumer_lat"])
             res["end"] = "finished"
-        except SrcErr as e:
+        except (SrcErr, _src_cancelled()) as e:
             res["end"] = "raised"
             res["exc"] = e
         except BaseException as e:  # noqa: BLE001
@@ -271,6 +288,8 @@ def run_merge(case, acc: Acc):
 
     r = vclock.run(main)
     acc.hit("merge_cases")
+    if case.get("err_cancel") and any(s_["err"] is not None for s_ in srcs):
+        acc.hit("merge_source_error_is_a_cancellation")
     acc.hit("wait_probe_calls", st["wait_calls"])
     if st["multi_done"]:
         acc.hit("merge_multi_done_sets", st["multi_done"])
